@@ -151,7 +151,7 @@ class Recorder:
     def __init__(self, m):
         self.m = m
         self.case = [-1] * m
-        self.prss = {}      # case -> list of (uci, field order, bound, {S: [values]}) in call order of party 0 .. merged over parties
+        self.prss = {}      # case -> {(uci, field order): {'bound', 'vals': {subset: [PRF outputs]}, 'order'}}, merged over parties
         self.rand = {}      # case -> list of (pid, bound, value)
         self.opened = {}    # case -> list of (field order, [values])   party 0 only
         self._orig_ps = thresha.pseudorandom_share
